@@ -73,6 +73,51 @@ def all_cases(tier, double=None):
     return cases
 
 
+def cross_module_cases():
+    """Referentially closed IRs whose references cross module boundaries, in
+    both list orders (a reference into a module listed later / earlier).
+    Used for the reader/writer (C02) and identity (C09) checks only: C01 and
+    C17 presuppose references that stay inside their module."""
+    U = irgen.U
+    out = []
+    for order in ("later", "earlier"):
+        k1 = irgen.mk_block("code", 1, size=2)
+        k2 = irgen.mk_block("data", 2, offset=2, size=1)
+        b1 = irgen.mk_interval(3, address=0x10, size=4, contents=b"\x01\x02",
+                               blocks=[k1, k2])
+        s1 = irgen.mk_section(4, ".text", flags=[1, 3], intervals=[b1])
+        yb = irgen.mk_symbol(5, "inB", ("ref", U(1)))
+        mB = irgen.mk_module(6, "B", sections=[s1], proxies=[{"uuid": U(7)}],
+                             symbols=[yb], entry=U(1))
+        ya1 = irgen.mk_symbol(8, "code-in-B", ("ref", U(1)))
+        ya2 = irgen.mk_symbol(9, "proxy-in-B", ("ref", U(7)), at_end=True)
+        ya3 = irgen.mk_symbol(10, "data-in-B", ("ref", U(2)))
+        ba = irgen.mk_interval(11, address=None, size=8, contents=b"")
+        ba["symexprs"] = {
+            0: {"kind": "const", "offset": 1, "sym1": U(5), "attrs": [0]},
+            4: {"kind": "addr", "offset": 0, "scale": 1, "sym1": U(8),
+                "sym2": U(5), "attrs": []},
+        }
+        sa = irgen.mk_section(12, ".data", intervals=[ba])
+        mA = irgen.mk_module(13, "A", sections=[sa], symbols=[ya1, ya2, ya3],
+                             entry=U(1),
+                             aux={"x": ("sequence<UUID>", [U(1), U(7)])})
+        mods = [mA, mB] if order == "later" else [mB, mA]
+        ir = irgen.mk_ir(14, modules=mods,
+                         cfg=[(U(1), U(7), None), (U(7), U(1), (1, False, True))])
+        out.append(("cross-module/refs-into-%s-module" % order, ir))
+    return out
+
+
+def reader_cases(tier):
+    """C02 / C09: the C01 space without double deviations, plus the
+    cross-module cases"""
+    key = ("reader", tier)
+    if key not in _CACHE:
+        _CACHE[key] = all_cases(tier, double=False) + cross_module_cases()
+    return _CACHE[key]
+
+
 def path_class(diff_text):
     """'.modules[0].sections[1][1]: a vs b' -> '.modules[].sections[][1]'"""
     if diff_text is None:
